@@ -208,6 +208,8 @@ def run(ctx):
             v = by.get(inst)
             ck.ob('C14-b', 'R6.carried-state', entry.name, inst, v is None, text if v is None else v.msg, entry.file,
                   v.node.line if v else entry.line, path=v.path if v else None, config=config)
+        from ..rules import extra
+        extra.check_dict_consumed(ck, prog, config, 'C14-b')
         # ---- c
         cc = prog.need_func('zck_get_chunk_comp_data')
 
